@@ -348,6 +348,10 @@ func c05Mutants(rng *vRand, raw []byte, cidLen int, other []byte, budget int) (m
 		add(fmt.Sprintf("plain-alert:%d:%d", body[0], body[1]), append(m, body...))
 	}
 	add("plain-ack", []byte{26, 254, 253, 0, 0, 0, 0, 0, 0x21, 0, byte(rng.intn(250)), 0, 0, 2, 0, 0})
+	// a ChangeCipherSpec with a valid body claiming the record's own (protected) epoch and a fresh,
+	// far-future sequence number: never authenticated by any suite, must change nothing
+	add("ccs-claims-epoch", []byte{20, 254, 253, raw[3], raw[4], 0xff, 0xff, 0xff, 0xff, 0xff, byte(0xf0 + rng.intn(15)), 0, 1, 1})
+	add("plain-appdata", append([]byte{23, 254, 253, 0, 0, 0, 0, 0, 0x22, 0, byte(rng.intn(250)), 0, 0, 3}, 1, 2, 3))
 	// sample down to the budget, keeping order
 	if budget > 0 && len(muts) > budget {
 		keep := map[int]bool{}
